@@ -254,4 +254,110 @@ def takeElements : SampleExpr → List Nat → SampleExpr
   | .mul a b, ind => if ind.isEmpty then .empty else .take (.mul a b) ind
   | .zip a b, ind => if ind.isEmpty then .empty else .take (.zip a b) ind
 
+/-! ## (b) quadrature rules: `TensorPoints`, `TransformPoints`, `ConcatPoints` -/
+
+section Quadrature
+variable {P Q P' : Type}
+
+/-- a quadrature rule: the list of (point, weight) of a `Points` object -/
+abbrev Rule (P α : Type) := List (P × α)
+
+/-- `Σ w·g(x)` -/
+def quad (r : Rule P α) (g : P → α) : α := (r.map fun pw => pw.2 * g pw.1).sum
+
+def totalWeight (r : Rule P α) : α := (r.map (·.2)).sum
+
+/-- `TensorPoints(points1, points2)`: coordinates concatenated, `weights = (w1[:,None] * w2[None,:]).ravel()` -/
+def tensor (r1 : Rule P α) (r2 : Rule Q α) : Rule (P × Q) α :=
+  r1.flatMap fun a => r2.map fun b => ((a.1, b.1), a.2 * b.2)
+
+/-- `TransformPoints(points, trans)`: `coords = trans.apply(coords)`, `weights = weights * abs(det)` -/
+def transform (r : Rule P α) (T : P → P') (absdet : α) : Rule P' α :=
+  r.map fun pw => (T pw.1, pw.2 * absdet)
+
+/-- `ConcatPoints(allpoints)` without duplicates (the Gauss and uniform schemes of `WithChildrenReference.getpoints`
+and `MosaicReference.getpoints`) -/
+def concat (rs : List (Rule P α)) : Rule P α := rs.flatten
+
+/-- `ConcatPoints.masks`: point `j` of part `i` is dropped when it is listed in some group after the first position -/
+def dupMasked (dups : List (List (Nat × Nat))) (i j : Nat) : Bool := dups.any fun grp => grp.tail.contains (i, j)
+
+def weightOf (rs : List (Rule P α)) (ij : Nat × Nat) : α := (((rs.getD ij.1 []).map (·.2))[ij.2]?).getD 0
+
+/-- `ConcatPoints.weights`: the first point of a group receives the weights of the dropped ones -/
+def dupExtra (rs : List (Rule P α)) (dups : List (List (Nat × Nat))) (i j : Nat) : α :=
+  (dups.map fun grp => if grp.head? = some (i, j) then (grp.tail.map (weightOf rs)).sum else 0).sum
+
+/-- `ConcatPoints(allpoints, duplicates)` (bezier scheme): masked points dropped, weights merged -/
+def concatDedup (rs : List (Rule P α)) (dups : List (List (Nat × Nat))) : Rule P α :=
+  (rs.zipIdx.map fun ri => (ri.1.zipIdx.filterMap fun pwj =>
+      if dupMasked dups ri.2 pwj.2 then none else some (pwj.1.1, pwj.1.2 + dupExtra rs dups ri.2 pwj.2))).flatten
+
+end Quadrature
+
+/-- `gauss1(degree)` uses `gauss(degree // 2)`, an `(degree//2 + 1)`-point Gauss-Legendre rule (eigenvalues of a
+Jacobi matrix of that size); an `n`-point Gauss rule is exact to degree `2n-1` -/
+def gauss1Npoints (degree : Nat) : Nat := degree / 2 + 1
+
+/-! ## (c) specification of the extracted simplex tables (exact arithmetic)
+
+A table entry `(deg, denX, denW, pts)` stands for the rule with points `x/denX` and weights `w/denW`
+(`Generated/C09.lean`).  The checks are stated in cross-multiplied integer arithmetic: for a monomial
+with exponents `e`, `|e| = Σ e_i`,
+
+  `Σ (w/denW) Π (x_i/denX)^{e_i} = S / scale`,  `S = Σ w Π x_i^{e_i}`,  `scale = denW · denX^{|e|}`,
+  `∫_simplex x^e = fn / fd`,  `fn = Π e_i!`,  `fd = (|e| + dim)!`,
+
+so `|S/scale − fn/fd| ≤ 2·10⁻¹⁵  ⇔  |S·fd − fn·scale| · 10¹⁵ ≤ 2 · scale · fd`.  The same statement in `Rat`
+arithmetic (`ratMonomialOK`) is kept as an executable cross-check (the driver evaluates both). -/
+
+abbrev ITable := Nat × Nat × Nat × List (List Int × Int)
+
+/-- all exponent tuples of length `dim` with total degree at most `deg` -/
+def monomials : Nat → Nat → List (List Nat)
+  | 0, _ => [[]]
+  | dim+1, deg => (List.range (deg+1)).flatMap fun a => (monomials dim (deg - a)).map (a :: ·)
+
+def factorial : Nat → Nat
+  | 0 => 1
+  | n+1 => (n+1) * factorial n
+
+def prodNat (l : List Nat) : Nat := l.foldl (· * ·) 1
+def prodInt (l : List Int) : Int := l.foldl (· * ·) 1
+def sumInt (l : List Int) : Int := l.foldl (· + ·) 0
+
+/-- `S = Σ w Π x_i^{e_i}` (numerators only) -/
+def iRule (pts : List (List Int × Int)) (e : List Nat) : Int :=
+  sumInt (pts.map fun pw => pw.2 * prodInt (List.zipWith (fun xi ei => xi ^ ei) pw.1 e))
+
+/-- the tolerance `2·10⁻¹⁵` of the table check (the decimal literals carry 15-16 digits) as `epsNum / epsDen` -/
+def epsNum : Nat := 2
+def epsDen : Nat := 1000000000000000
+
+def iMonomialOK (dim : Nat) (t : ITable) (e : List Nat) : Bool :=
+  let s := iRule t.2.2.2 e
+  let scale : Nat := t.2.2.1 * t.2.1 ^ e.sum
+  let fn : Nat := prodNat (e.map factorial)
+  let fd : Nat := factorial (e.sum + dim)
+  decide ((s * (fd : Int) - (fn : Int) * (scale : Int)).natAbs * epsDen ≤ epsNum * scale * fd)
+
+/-- positive denominators, `dim` coordinates per point, all barycentric coordinates nonnegative -/
+def insideSimplex (dim : Nat) (t : ITable) : Bool :=
+  decide (0 < t.2.1) && decide (0 < t.2.2.1) &&
+  t.2.2.2.all fun pw => pw.1.length == dim && pw.1.all (fun x => decide (0 ≤ x)) && decide (sumInt pw.1 ≤ (t.2.1 : Int))
+
+/-- every monomial of total degree at most the claimed degree is integrated to within `2·10⁻¹⁵`
+(degree 0: the weights sum to the volume `1/dim!`) -/
+def exactToDegree (dim : Nat) (t : ITable) : Bool := (monomials dim t.1).all (iMonomialOK dim t)
+
+def tableOK (dim : Nat) (t : ITable) : Bool := insideSimplex dim t && exactToDegree dim t
+
+/-- the same check in rational arithmetic -/
+def ratMonomialOK (dim : Nat) (t : ITable) (e : List Nat) : Bool :=
+  let q : Rat := (t.2.2.2.map fun pw => ((pw.2 : Rat) / (t.2.2.1 : Nat)) *
+      (List.zipWith (fun (xi : Int) ei => ((xi : Rat) / (t.2.1 : Nat)) ^ ei) pw.1 e).foldl (· * ·) 1).foldl (· + ·) 0
+  let exact : Rat := ((prodNat (e.map factorial) : Nat) : Rat) / ((factorial (e.sum + dim) : Nat) : Rat)
+  let d := q - exact
+  decide ((if d < 0 then -d else d) ≤ (epsNum : Rat) / (epsDen : Rat))
+
 end NutilsVerif.C09
